@@ -14,8 +14,40 @@ RULE = ("model: server close / reset / undecodable frame / write failure / unbin
         "Panic event; neither is explained by any action of the model")
 
 
+def extra(chk):
+    """Fault enumeration: every byte offset of the response stream x {eof, reset} (garbage at frame boundaries), every byte
+    offset of the request stream x write failure, on four base scenarios."""
+    import os, json
+    import common as C
+    tr = os.path.join(chk.dir, "faultenum.ndjson")
+    rp = os.path.join(chk.dir, "faultenum.json")
+    C.harness("conn-run", ["faultenum", tr, 1, rp])
+    rep = C.load(rp)
+    chk.report(rep, "fault enumeration")
+    n, diags, res = L.validate(chk, tr)
+    chk.traces += rep["evaluations"]
+    events = [json.loads(l) for l in open(tr)]
+    owned = {}
+    for idx, tag in diags:
+        own = L.owner_of(tag, events, idx)
+        if own == "C04" or (isinstance(own, tuple) and "C04" in own):
+            owned.setdefault(tag, []).append(idx)
+        else:
+            chk.notes.append("fault enumeration: difference owned by %s: %s at event %d" % (L._own_str(own), tag, idx))
+    chk.extra.setdefault("trace_validation", []).append(dict(profile="faultenum", scenarios=rep["evaluations"], events=n,
+                                                             diag_owned={k: len(v) for k, v in owned.items()}))
+    for tag, idxs in owned.items():
+        sd, k, j0 = L.scenario_of(events, idxs[0])
+        chk.problem("faultenum:" + tag, dict(count=len(idxs), event=events[idxs[0] - 1], scenario=events[j0:idxs[0]][-25:]),
+                    "I->S: TraceLdapConn on the fault enumeration")
+    chk.rule.append("fault enumeration: 4 base scenarios (pending single operations, direct and adapted streams mid-way, an operation "
+                    "whose result was already delivered, a timed operation); the concatenated response bytes are cut at EVERY byte "
+                    "offset by an orderly close and by a reset (a frame cut short is an undecodable frame), by a non-LDAP element at "
+                    "every frame boundary, and the request bytes at every offset by a write failure; each run is one validated trace")
+
+
 def run(tier):
-    return L.run_lane("C04", tier, MC[tier], PROFILES[tier], RULE, scripts=SCRIPTS[tier], selftests=[("data-after-exit", L.corrupt_failfast, "core:Ret")])
+    return L.run_lane("C04", tier, MC[tier], PROFILES[tier], RULE, scripts=SCRIPTS[tier], selftests=[("data-after-exit", L.corrupt_failfast, "core:Ret")], extra=extra)
 
 
 def replay(path):
